@@ -15,6 +15,8 @@ func genC09(r *simrt.Rand, tier string, idx int) *hx.Program {
 	p := &hx.Program{P: map[string]int64{}}
 	p.P["seg"] = []int64{1, 100, 200, 400, 1000}[r.Intn(5)]
 	p.P["sticky"] = []int64{50, 90}[r.Intn(2)]
+	p.P["timeskip"] = []int64{0, 0, 5, 40}[r.Intn(4)] // per mille of the scheduling steps at which time passes although tasks are runnable
+	p.P["skipmax_ms"] = []int64{50, 2000, 30000}[r.Intn(3)]
 	// provisional limits; Expand replaces them by values around the layout's actual totals
 	if r.Pct(50) {
 		p.P["ret_msgs"] = int64(1 + r.Intn(40))
